@@ -2,8 +2,10 @@
 """import_seeded.py <worktree> <property> : copy verified sub-agent mutants into /verif/seeded/<id>/."""
 import json, os, shutil, sys
 wt, pid = sys.argv[1], sys.argv[2]
+offset = int(sys.argv[3]) if len(sys.argv) > 3 else 0
+logf = sys.argv[4] if len(sys.argv) > 4 else f"/tmp/verify-{pid}.log"
 log = {}
-lf = f"/tmp/verify-{pid}.log"
+lf = logf
 if os.path.exists(lf):
     for l in open(lf):
         try:
@@ -17,7 +19,7 @@ for k in sorted(os.listdir(os.path.join(wt, "MUTANTS"))):
     v = log.get(int(k), {})
     if not (v.get("demo_clean_rc") == 0 and v.get("demo_mutant_rc") == 1):
         print("skip (not verified)", src, v); continue
-    dst = os.path.join("/verif/seeded", f"{pid}-{k}")
+    dst = os.path.join("/verif/seeded", f"{pid}-{int(k) + offset}")
     os.makedirs(dst, exist_ok=True)
     shutil.copy(os.path.join(src, "patch.diff"), dst)
     shutil.copy(os.path.join(src, "demo.py"), dst)
